@@ -250,12 +250,20 @@ class MerkleCache(object):
             leaf_start = self._leaf_start(index)
             count = min(self._segment_length(), length - leaf_start)
             leaf_hashes = await self.source_func(leaf_start, count)
-            if length < self._segment_length():
-                result = self.merkle.branch_and_root(leaf_hashes, index, tsc_format=tsc_format)
-            else:
-                level = await self._level_for(length)
-                result = self.merkle.branch_and_root_from_level(
-                    level, leaf_hashes, index, self.depth_higher, tsc_format=tsc_format)
+            try:
+                if length < self._segment_length():
+                    result = self.merkle.branch_and_root(leaf_hashes, index,
+                                                         tsc_format=tsc_format)
+                else:
+                    level = await self._level_for(length)
+                    result = self.merkle.branch_and_root_from_level(
+                        level, leaf_hashes, index, self.depth_higher, tsc_format=tsc_format)
+            except ValueError:
+                # A level cut by a truncation while waiting for hashes can fail the
+                # consistency checks; that is not an error of the request
+                if truncations == self.truncations:
+                    raise
+                continue
             # A truncation while waiting for hashes may have cut the level used above, and
             # the hashes may be a mix of two chains; do it again
             if truncations == self.truncations:
